@@ -211,12 +211,19 @@ func Explore[O any](r *ev.Run, cfg Config[O]) Result {
 		var wg sync.WaitGroup
 		var mu sync.Mutex
 		var diverged []string
+		mergeTimedOut := false
 		ch := make(chan job)
 		for w := 0; w < cfg.Workers; w++ {
 			wg.Add(1)
 			go func() {
 				defer wg.Done()
 				for j := range ch {
+					if !cfg.Deadline.IsZero() && time.Now().After(cfg.Deadline) {
+						mu.Lock()
+						mergeTimedOut = true
+						mu.Unlock()
+						continue
+					}
 					n := nodes[j.key]
 					s := replay(cfg, j.alt)
 					ops := s.Ops()
@@ -258,6 +265,9 @@ func Explore[O any](r *ev.Run, cfg Config[O]) Result {
 		}
 		close(ch)
 		wg.Wait()
+		if mergeTimedOut {
+			r.Capped(fmt.Sprintf("%s: time budget hit during the differential merge checks (%d done)", cfg.Name, res.MergeChecks))
+		}
 		if len(diverged) > 0 {
 			// Two histories reaching the same key behave differently. On a tree where the
 			// property holds this means the key is too coarse (checker defect, exit 2). If the
